@@ -72,6 +72,7 @@ where
     let me = std::process::id();
 
     let mut queue: VecDeque<(Batch, BTreeSet<u64>)> = batches.iter().cloned().map(|b| (b, BTreeSet::new())).collect();
+    let mut timeouts_total = 0u64;
     struct Running {
         pid: i32,
         batch: Batch,
@@ -217,7 +218,17 @@ where
                     result.abnormal.push((r.batch.clone(), idx, ab));
                     let n = crashes_per_batch.entry(r.batch.id).or_insert(0);
                     *n += 1;
-                    if *n > 200 {
+                    if timed_out {
+                        timeouts_total += 1;
+                    }
+                    // every hang costs a full case timeout: after a handful of them (one is a
+                    // verdict already) the batches still queued are given up instead of explored
+                    if timeouts_total > 12 {
+                        result.abandoned.push(r.batch.id);
+                        while let Some((b, _)) = queue.pop_front() {
+                            result.abandoned.push(b.id);
+                        }
+                    } else if *n > 200 {
                         result.abandoned.push(r.batch.id);
                     } else {
                         let mut skip = r.skip.clone();
